@@ -320,6 +320,14 @@ def gen_history(rng, tier, big=False, tiny=False):
     nblk = size // bs
     mode = rng.choice(["equal", "equal", "varying", "varying", "minfill"])
     use_offset = rng.chance(1, 3)
+    if not big and not tiny and rng.chance(1, 8):
+        # the densest packing the ring allows: every round is filled to its last byte with minimum-size blocks and the
+        # number of blocks per round is a multiple of 256 (the block table then ends exactly on a page boundary)
+        mbs, nblk = rng.choice([(8, 256), (1, 256), (16, 256), (4, 512), (2, 256)])
+        bs = mbs
+        size = nblk * bs
+        mode = "equal"
+        use_offset = False
     use_set2 = rng.chance(1, 4)
     round0 = (U64 - rng.range(0, 2)) if rng.chance(1, 4) else None
     maxb = max(bs, min(size // 3, 6 * bs))
